@@ -62,12 +62,23 @@ type Chain struct {
 	labels  map[string]string // bech32 -> label
 	Accts   map[string]*Acct
 	ChainID string
+	Open    bool // a block is open (Begin succeeded, End not yet called)
 }
 
 type GenMut func(gs app.GenesisState, a *app.JackalApp)
 
 // New creates the app, runs InitChain with the (mutated) default genesis, commits, and opens block 2.
 func New(muts ...GenMut) *Chain {
+	c := NewClosed(muts...)
+	if p := c.Begin(); p != nil {
+		panic(fmt.Sprintf("first BeginBlock panicked: %v", p))
+	}
+	return c
+}
+
+// NewClosed is New without opening block 2: the chain is at committed height 1 and Ctx is a read-only
+// context on the committed state until Begin is called.
+func NewClosed(muts ...GenMut) *Chain {
 	Config()
 	dir, err := os.MkdirTemp("", "vh-home-")
 	if err != nil {
@@ -90,9 +101,7 @@ func New(muts ...GenMut) *Chain {
 	c := &Chain{App: a, H: 1, T: time.Unix(1700000000, 0).UTC(), Step: 6 * time.Second, dir: dir,
 		labels: map[string]string{}, Accts: map[string]*Acct{}}
 	c.registerModuleLabels()
-	if p := c.Begin(); p != nil {
-		panic(fmt.Sprintf("first BeginBlock panicked: %v", p))
-	}
+	c.Ctx = a.BaseApp.NewContext(true, tmproto.Header{Height: c.H, Time: c.T})
 	return c
 }
 
@@ -142,6 +151,7 @@ func (c *Chain) Begin() (panicked interface{}) {
 	}()
 	if panicked == nil {
 		c.Ctx = c.App.BaseApp.NewContext(false, hdr)
+		c.Open = true
 	}
 	return
 }
@@ -156,12 +166,15 @@ func (c *Chain) End() (panicked interface{}, appHash []byte) {
 		return
 	}
 	r := c.App.Commit()
+	c.Open = false
 	return nil, r.Data
 }
 
 func (c *Chain) Next() interface{} {
-	if p, _ := c.End(); p != nil {
-		return p
+	if c.Open {
+		if p, _ := c.End(); p != nil {
+			return p
+		}
 	}
 	return c.Begin()
 }
